@@ -1353,6 +1353,7 @@ class PE:
         self.num_names = frozenset()
         self.no_mark = 0           # > 0 inside lambda / comprehension bodies: their calls run elsewhere / are accounted as a whole
         self.local_writers = {}
+        self.partial_ops = []      # (sequence, index) item reads / unpackings evaluated so far (they may raise)
         self.self_class = None     # (module, class) when the function being summarised is a method of a known class
         self.self_name = None
         self.local_fdefs = {}      # index of a nested function -> its FunctionDef (calls are written out when it is a pure expression)
@@ -1556,6 +1557,8 @@ class PE:
         base = self.ev(n.value, env)
         idx = self.ev(n.slice, env)
         self.bounds(base, idx)
+        if idx[0] != 'slice' and not (base[0] in ('list', 'tuple', 'dict', 'c') and concrete(idx)) and not self.spec_depth and len(self.partial_ops) < 400:
+            self.partial_ops.append((base, idx))        # an item read may raise: remembered for guards that come later
         return get_idx(base, idx)
 
     def bounds(self, base, idx):
@@ -2435,8 +2438,30 @@ class PE:
             env[tgt.id] = val
         elif isinstance(tgt, (ast.Tuple, ast.List)):
             n = len(tgt.elts)
-            if any(isinstance(e, ast.Starred) for e in tgt.elts):
-                raise Unsupported('starred target', tgt)
+            if val[0] not in ('tuple', 'list') and len(self.partial_ops) < 400:
+                self.partial_ops.append((val, ('unpack', C(n))))
+            stars = [i for i, e in enumerate(tgt.elts) if isinstance(e, ast.Starred)]
+            if stars:
+                # a, *b, c = x   is   a = x[0]; b = list(x[1:-1]); c = x[-1]
+                if len(stars) > 1:
+                    raise Unsupported('starred target', tgt)
+                k = stars[0]
+                after = n - k - 1
+                if val[0] in ('tuple', 'list') and len(val[1]) >= n - 1 and not any(x[0] == 'star' for x in val[1]):
+                    its = list(val[1])
+                    for i, e in enumerate(tgt.elts[:k]):
+                        self.bind_target(e, its[i], env)
+                    self.bind_target(tgt.elts[k].value, ('list', tuple(its[k:len(its) - after])), env)
+                    for i, e in enumerate(tgt.elts[k + 1:]):
+                        self.bind_target(e, its[len(its) - after + i], env)
+                    return
+                for i, e in enumerate(tgt.elts[:k]):
+                    self.bind_target(e, get_idx(val, C(i)), env)
+                mid = get_idx(val, ('slice', C(k) if k else NONE, C(-after) if after else NONE, NONE))
+                self.bind_target(tgt.elts[k].value, ('call', ('b', 'list'), (mid,), ()), env)
+                for i, e in enumerate(tgt.elts[k + 1:]):
+                    self.bind_target(e, get_idx(val, C(i - after)), env)
+                return
             items = None
             if val[0] in ('tuple', 'list') and len(val[1]) == n:
                 items = list(val[1])
@@ -2675,7 +2700,7 @@ class PE:
         if isinstance(s, ast.Try):
             return self.exec_try(s, env, effects)
         if isinstance(s, ast.With):
-            raise Unsupported('with', s)
+            return self.exec_with(s, env, effects)
         raise Unsupported('statement ' + type(s).__name__, s)
 
     def merge_envs(self, c, ea, eb, env):
@@ -2703,6 +2728,7 @@ class PE:
         ea, eb = dict(env), dict(env)
         fa, fb = [], []
         self.branch_depth += 1
+        mark_ = len(self.partial_ops)
         al0 = dict(self.aliases)
         try:
             ta = self.exec_block(s.body, ea, fa)
@@ -2717,6 +2743,20 @@ class PE:
         if ta != tb:
             # the rest of the block continues inside the live branch with that branch's views
             self.aliases = dict(alb if ta else ala)
+        if (ta or tb) and self.partial_ops:
+            # a guard that leaves the function, on a sequence whose items were already read: had the guard come first, those
+            # reads would not have happened on the leaving path (the classic "access moved above its check")
+            seqs = set()
+            for x in walk(c):
+                if x[0] == 'call' and x[1] == ('b', 'len') and len(x[2]) == 1:
+                    seqs.add(x[2][0])
+                if x[0] == 'cmp' and x[1] == 'in':
+                    seqs.add(x[3])              # `if k not in d: return` guards d[k]
+            for x in ([c] + list(c[1]) if c[0] in ('and', 'or') else [c]):
+                seqs.add(x[1] if x[0] == 'not' else x)
+            early = sorted({(q, i) for (q, i) in self.partial_ops[:mark_] if q in seqs}, key=skey)
+            if early:
+                effects.append(('read_before_guard', tuple(early)))
         if ta and tb:
             self.emit_if(c, fa, fb, effects)
             return True
@@ -3641,6 +3681,20 @@ class PE:
         effects.append(('def', k, sm.term()))
         return False
 
+    def exec_with(self, s, env, effects):
+        """with E as x: body  - the context manager is entered, the body runs, the manager is left on every way out: kept as a
+        `with` node around the body's effects (no normal form looks inside the protocol calls)"""
+        ctxs = []
+        for item in s.items:
+            c = self.ev(item.context_expr, env)
+            ctxs.append(c)
+            if item.optional_vars is not None:
+                self.bind_target(item.optional_vars, ('call', ('attr', c, '__enter__'), (), ()), env)
+        body_eff = []
+        t = self.exec_block(s.body, env, body_eff)
+        effects.append(('with', tuple(ctxs), tuple(body_eff)))
+        return t
+
     def _read_first_outside(self, trystmt, inside):
         """names whose value as left by the try body may be READ outside it: in some region (each handler; else + finally + the
         rest of the function) the first occurrence in evaluation order is a load"""
@@ -3825,6 +3879,7 @@ class PE:
         self.inplace_updated_objs = set()
         self.obj_writes = {}
         self.cur_fdef = fdef
+        self.partial_ops = []
         self.self_name = names[0] if (names and self.self_class is not None) else None
 
         def count_(n_, top=True):
